@@ -247,6 +247,21 @@ func (s *scope) CreateScope(ctx context.Context) (Scope, error) {
 	s.rootProvider.scopes[child] = struct{}{}
 	s.rootProvider.scopesMu.Unlock()
 
+	// A concurrent Close of this scope may have found the child in the children table
+	// and closed it before it was tracked in the provider: a closed scope must not be
+	// left behind in the tables
+	if atomic.LoadInt32(&child.disposed) != 0 {
+		s.childrenMu.Lock()
+		delete(s.children, child)
+		s.childrenMu.Unlock()
+
+		s.rootProvider.scopesMu.Lock()
+		delete(s.rootProvider.scopes, child)
+		s.rootProvider.scopesMu.Unlock()
+
+		return nil, ErrScopeDisposed
+	}
+
 	// Auto-close on context cancellation
 	go func() {
 		verifGate("W_wait", child)
